@@ -23,9 +23,10 @@ Theorem C11_src_formats : forall tns n,
   /\ render rk_wsgi_fmt [tns; n] = Some (method_key tns n).
 Proof. exact src_formats. Qed.
 
-(** get_call_handles with the prefix test and the format found in the source is the model's, for all inputs *)
+(** get_call_handles with the None guard, the prefix test and the format found in the source is the model's,
+    for all inputs *)
 Theorem C11_src_get_call_handles : forall tns t mrs,
-  get_call_handles_src tns t mrs = Some (get_call_handles tns t mrs).
+  get_call_handles_src tns t mrs = Some (get_call_handles_opt tns t mrs).
 Proof. exact src_get_call_handles. Qed.
 
 (** process_method with the format and the insert index found in the source is the model's, for all inputs *)
@@ -40,6 +41,7 @@ Proof. exact src_last_segment. Qed.
 (** non-vacuity: the extracted format renders a key; the extracted lookup finds a handler and misses a near miss *)
 Example C11_src_ex :
   render rk_pm_fmt [[117; 114; 110]; [102]] = Some [123; 117; 114; 110; 125; 102]
-  /\ get_call_handles_src [117] [([123; 117; 125; 102], [])] [102] = Some []
+  /\ get_call_handles_src [117] [([123; 117; 125; 102], [])] (Some [102]) = Some []
+  /\ get_call_handles_src [117] [] None = Some []
   /\ rk_gch_prefix = [123] /\ rk_pm_insert_index = 0.
 Proof. repeat split. Qed.
